@@ -46,6 +46,16 @@ def bytesOfString (s : GoString) : Bytes := s
 /-- `*p` for a pointer known to be non-nil (the translator checks the guard) -/
 def deref {α} [Inhabited α] (p : Option α) : α := p.getD default
 
+/-- the value of the local buffer `x` after `copy(x[a:b], src)`: the window has length `b - a`, `min (b - a) (len src)` elements are
+overwritten starting at `a` (a window that exceeds the buffer panics in Go: not modelled) -/
+def copyAt {α} (x : List α) (a b : Int) (src : List α) : List α :=
+  let n := min (b - a).toNat src.length
+  x.take a.toNat ++ src.take n ++ x.drop (a.toNat + n)
+/-- the value of the local buffer `x` after `x[j] = v` (out of range panics in Go: here no change) -/
+def setAt {α} (x : List α) (j : Int) (v : α) : List α := x.set j.toNat v
+/-- `uint8(x)` / `byte(x)` of an `int`: the low 8 bits -/
+def byteOfInt (x : Int) : UInt8 := UInt8.ofNat (x % 256).toNat
+
 /-! ### uint64 (values are `Nat` < 2^64; `+ - *` are emitted with an explicit `% 2^64`) -/
 
 /-- `x << s` on uint64 (`s ≥ 64` gives 0, as in Go) -/
